@@ -177,6 +177,8 @@ pub fn make_delays(plan: &str, n: usize, window: usize, rng: &mut Rng) -> Vec<(u
             "random" => (rng.below(6) * unit, rng.below(3) * unit),
             "one_slow" => (if i == n / 3 { 8_000 } else { 0 }, 0),
             "end_heavy" => (0, ((w - i % w) as u64) * unit),
+            // every job is slow: the next block is never ready when it is asked for
+            "all_slow" => (2 * unit, 0),
             _ => (0, 0),
         })
         .collect()
